@@ -126,6 +126,15 @@ func c28Exec(hist []c28Op, outcome func(string)) (string, bool, []lib.Problem) {
 			return nil
 		}
 		n := new(lruset.Set)
+		if step%2 == 1 {
+			// every other time: decode into a set that has been used (other
+			// size, keys bound, recency changed) instead of a fresh one
+			u := lruset.NewSet(5)
+			u.UpdateKey(0, "", "stale-a")
+			u.UpdateKey(3, "", "stale-b")
+			u.Visit(3)
+			n = &u
+		}
 		if err := json.Unmarshal(data, n); err != nil {
 			bad(step, "json-unmarshal", "%v", err)
 			return nil
